@@ -205,5 +205,8 @@ func idleState(lf, state string) bool {
 	if lf == "(*channel).receiver" && state == "select" {
 		return true // parked in RecvMsg
 	}
+	if lf == "(*channel).reconnect" && state == "select" {
+		return true // the receiver's back-off wait while a node is down
+	}
 	return false
 }
